@@ -1,5 +1,5 @@
 /-
-The decode step of one nsqd's `/stats` answer (`Aggregate.nodeAnswer`): with the F24 guard it is the
+The decode step of one nsqd's `/stats` answer (`Aggregate.nodeAnswer`): with the F53 guard it is the
 identity; in general a successful decode continues with `topicsOfNode`; and the Bool `pctDecodes`
 is exactly "`Latency.unmarshal` does not fault".
 -/
